@@ -196,5 +196,535 @@ Qed.
 
 Lemma NoDup_snoc {A} (l : list A) x : NoDup l -> ~ In x l -> NoDup (l ++ [x]).
 Proof.
-  intros Hl Hx. apply NoDup_app_iff_local. exact Hl. exact Hx.
+  induction l as [|y l IH]; intros Hl Hx; cbn.
+  - constructor; [intros []|constructor].
+  - inversion Hl; subst. constructor.
+    + rewrite in_app_iff. intros [H|[H|[]]]; [contradiction|]. subst. apply Hx. left. reflexivity.
+    + apply IH; [assumption|]. intros H. apply Hx. right. exact H.
+Qed.
+
+Lemma NoDup_rels_of_kind l k : NoDup l -> NoDup (rels_of_kind l k).
+Proof.
+  unfold rels_of_kind. induction l as [|[x k'] l IH]; intros H; cbn; [constructor|].
+  inversion H; subst. destruct (kind_eqb k' k) eqn:Hk; cbn; [|apply IH; assumption].
+  constructor; [|apply IH; assumption].
+  intros Hin. apply in_map_iff in Hin as ([y k''] & Hy & Hin). cbn in Hy. subst y.
+  apply filter_In in Hin as [Hin Hk2]. cbn in Hk2. apply kind_eqb_eq in Hk, Hk2. subst. contradiction.
+Qed.
+
+Lemma WF_add_fan s i it l : WF s -> NoDup l -> WF (add_fan s i it l).
+Proof.
+  intros [H1 H2] Hl. split; cbn; [exact H1|]. apply Forall_app. split; [exact H2|]. constructor; [exact Hl|constructor].
+Qed.
+Lemma NoDup_single {A} (x : A) : NoDup [x].
+Proof. constructor; [intros []|constructor]. Qed.
+
+Ltac wf_same := match goal with HW : WF _ |- _ => destruct HW as [HW1 HW2]; split; cbn; assumption end.
+
+Lemma sub_copy_WF s r s' p : sub_copy s r = (s', p) -> WF s -> WF s'.
+Proof. unfold sub_copy. destruct (get_rec s r); intros H HW; inversion H; subst; wf_same. Qed.
+
+Lemma step_pc_WF i s p s' p' : step_pc i s p = Some (s', p') -> WF s -> WF s'.
+Proof.
+  destruct p; cbn [step_pc]; intros H HW; try discriminate.
+  - destruct (locked s r); [discriminate|]. inversion H; subst.
+    apply WF_add_fan; [wf_same | apply NoDup_nodup].
+  - destruct to; inversion H; subst; wf_same.
+  - destruct (table s); inversion H; subst; wf_same.
+  - destruct (locked s r); [discriminate|]. destruct (has_rel (rels s) i k) eqn:Hr; inversion H; subst; [wf_same|].
+    destruct HW as [HW1 HW2]. split; cbn; [|assumption]. apply NoDup_snoc; [assumption|apply has_rel_false; assumption].
+  - destruct (table s); [inversion H as [H1]; eapply sub_copy_WF; eauto | inversion H; subst; wf_same].
+  - destruct (has_rel (rels s) i k); [|inversion H as [H1]; eapply sub_copy_WF; eauto].
+    inversion H; subst. destruct HW as [HW1 HW2]. split; cbn; [|assumption]. apply NoDup_filter. assumption.
+  - destruct (get_rec s r) as [x|]; [|inversion H; subst; wf_same].
+    destruct (r_notify x && (r_cnt x + 1 <=? 1)%Z); inversion H; subst; [|wf_same].
+    apply WF_add_fan; [wf_same | apply NoDup_single].
+  - inversion H; subst; wf_same.
+  - destruct (table s); inversion H; subst; wf_same.
+  - destruct (has_rel (rels s) i k); inversion H; subst; [|wf_same].
+    destruct HW as [HW1 HW2]. split; cbn; [|assumption]. apply NoDup_filter. assumption.
+  - destruct (get_rec s r) as [x|]; [|inversion H; subst; wf_same].
+    destruct (r_notify x && (r_cnt x - 1 <=? 0)%Z); inversion H; subst; [|wf_same].
+    apply WF_add_fan; [wf_same | apply NoDup_single].
+  - inversion H; subst; wf_same.
+  - inversion H; subst; wf_same.
+  - inversion H; subst. destruct HW as [HW1 HW2].
+    apply WF_add_fan; [apply WF_add_fan|]; try (apply NoDup_rels_of_kind; assumption).
+    split; cbn; [constructor|assumption].
+  - destruct exits; [destruct downs; [destruct die|]|]; inversion H; subst; wf_same.
+  - inversion H; subst. destruct HW as [HW1 HW2]. split; cbn; [|assumption]. apply NoDup_filter. assumption.
+  - destruct ks; [inversion H; subst; wf_same|]. destruct (table s); inversion H; subst; wf_same.
+  - destruct (get_rec s r) as [x|]; [|inversion H; subst; wf_same].
+    destruct (r_notify x && (r_cnt x - 1 <=? 0)%Z); inversion H; subst; [|wf_same].
+    apply WF_add_fan; [wf_same | apply NoDup_single].
+  - inversion H; subst; wf_same.
+  - destruct (table s) as [r|]; [|inversion H; subst; wf_same].
+    destruct (get_rec s r) as [x|]; [|inversion H; subst; wf_same].
+    destruct (Nat.eqb (r_owner x) i); inversion H; subst; wf_same.
+Qed.
+
+Lemma start_op_WF i s o s' p' : start_op i s o = (s', p') -> WF s -> WF s'.
+Proof.
+  destruct o; cbn [start_op]; intros H HW.
+  - destruct (table s); inversion H; subst; wf_same.
+  - destruct (table s) as [r|]; [|inversion H; subst; wf_same].
+    destruct (get_rec s r) as [x|]; [|inversion H; subst; wf_same].
+    destruct (Nat.eqb (r_token x) tok); inversion H; subst; wf_same.
+  - destruct (has_rel (rels s) i k); inversion H; subst; wf_same.
+  - destruct (has_rel (rels s) i k); inversion H; subst; wf_same.
+  - destruct (table s) as [r|]; [|inversion H; subst; wf_same].
+    destruct (get_rec s r) as [x|]; [|inversion H; subst; wf_same].
+    destruct (Nat.eqb (r_owner x) i); inversion H; subst; wf_same.
+  - inversion H; subst; wf_same.
+Qed.
+
+(* a predicate on the shared state kept by every start_op / step_pc is kept by every schedule *)
+Lemma shared_invariant (P : shared -> Prop) :
+  (forall i s o s' p', start_op i s o = (s', p') -> P s -> P s') ->
+  (forall i s p s' p', step_pc i s p = Some (s', p') -> P s -> P s') ->
+  forall c i c', P (sh c) -> step c i = Some c' -> P (sh c').
+Proof.
+  intros H1 H2 c i c' HP. unfold step. destruct (nth_error (thr c) i) as [t|]; [|discriminate].
+  destruct (t_pc t) eqn:Hpc.
+  1: { destruct (t_todo t) as [|o rest]; [discriminate|].
+       destruct (start_op i (sh c) o) as [s' p'] eqn:Hs. intros H; inversion H; subst. cbn. eapply H1; eauto. }
+  all: destruct (step_pc i (sh c) _) as [[s' p']|] eqn:Hs; try discriminate; intros H; inversion H; subst; cbn; eapply H2; eauto.
+Qed.
+
+Theorem WF_reachable progs sched : WF (sh (run sched (init_cfg progs))).
+Proof.
+  apply (run_invariant (fun c => WF (sh c))).
+  - intros c i c'. apply shared_invariant; [intros; eapply start_op_WF; eauto | intros; eapply step_pc_WF; eauto].
+  - split; cbn; constructor.
+Qed.
+
+(* ------------------------------------------------------------------------------------------ *)
+(* 3. Per receiver: exactly once and in the publisher's order                                  *)
+
+(* items pushed by actor i into the mailbox of x, in push order *)
+Definition recv (x i : nat) (l : list entry) : list item :=
+  map snd (filter (fun e => Nat.eqb (fst e) x) (sends_of i l)).
+Definition pend_to (x i : nat) (p : pc) : list item :=
+  map snd (filter (fun e => Nat.eqb (fst e) x) (pend i p)).
+(* the snapshots of actor i that contain x, in the order they were taken *)
+Definition expected (x : nat) (fs : list (item * list nat)) : list item :=
+  flat_map (fun f => if mem x (snd f) then [fst f] else []) fs.
+
+Lemma mem_false_notin x l : mem x l = false -> ~ In x l.
+Proof.
+  unfold mem. intros H Hin. rewrite <- not_true_iff_false in H. apply H. apply existsb_exists.
+  exists x. split; [exact Hin | apply Nat.eqb_refl].
+Qed.
+Lemma mem_true_in x l : mem x l = true -> In x l.
+Proof. unfold mem. intros H. apply existsb_exists in H as (y & Hin & Hy). apply Nat.eqb_eq in Hy. subst. exact Hin. Qed.
+Lemma notin_mem_false x l : ~ In x l -> mem x l = false.
+Proof. intros H. destruct (mem x l) eqn:E; [|reflexivity]. apply mem_true_in in E. contradiction. Qed.
+
+Lemma one_fan x (it : item) l : NoDup l ->
+  map snd (filter (fun e : nat * item => Nat.eqb (fst e) x) (map (fun y => (y, it)) l)) = if mem x l then [it] else [].
+Proof.
+  induction l as [|y l IH]; intros H; [reflexivity|]. inversion H; subst. cbn.
+  rewrite (Nat.eqb_sym x y). destruct (Nat.eqb_spec y x) as [->|Hn]; cbn.
+  - rewrite IH by assumption. rewrite notin_mem_false by assumption. reflexivity.
+  - apply IH. assumption.
+Qed.
+
+Lemma flat_fans_to x fs : Forall (fun f => NoDup (snd f)) fs ->
+  map snd (filter (fun e : nat * item => Nat.eqb (fst e) x) (flat_fans fs)) = expected x fs.
+Proof.
+  induction 1 as [|f fs Hf _ IH]; [reflexivity|].
+  unfold flat_fans, expected in *. cbn. rewrite filter_app, map_app, IH. f_equal. apply one_fan. exact Hf.
+Qed.
+
+Lemma fans_of_nodup i l : Forall (fun f : nat * (item * list nat) => NoDup (snd (snd f))) l ->
+  Forall (fun f => NoDup (snd f)) (fans_of i l).
+Proof.
+  unfold fans_of. induction 1 as [|f l Hf _ IH]; cbn; [constructor|].
+  destruct (Nat.eqb (fst f) i); cbn; [constructor; assumption | assumption].
+Qed.
+
+(* C18, live stream.  For every schedule, every publisher / unregistering / notifying actor i and every
+   receiver x: what i has pushed to x, followed by what its current operation still has to push to x,
+   is exactly the list of i's snapshots that contain x, in snapshot order: each once, none else. *)
+Theorem exactly_once_in_order progs sched :
+  let c := run sched (init_cfg progs) in
+  forall i t x, nth_error (thr c) i = Some t ->
+    recv x i (log (sh c)) ++ pend_to x i (t_pc t) = expected x (fans_of i (fans (sh c))).
+Proof.
+  intros c i t x Ht. subst c. unfold recv, pend_to. rewrite <- map_app, <- filter_app.
+  rewrite (FanInv_reachable progs sched i t Ht).
+  apply flat_fans_to. apply fans_of_nodup. apply (WF_reachable progs sched).
+Qed.
+
+(* the snapshot of a publication is taken in ONE step together with the buffer push and lists every
+   actor that holds a relation (link or monitor) at that moment, once *)
+Lemma publish_snapshot i s r seq s' p' :
+  step_pc i s (P_crit r seq) = Some (s', p') ->
+  fans s' = fans s ++ [(i, (IEv i seq, consumers s))] /\ p' = P_send seq (consumers s) /\
+  NoDup (consumers s) /\ forall x, In x (consumers s) <-> exists k, In (x, k) (rels s).
+Proof.
+  cbn [step_pc]. destruct (locked s r); [discriminate|]. intros H; inversion H; subst. cbn.
+  repeat split; try apply NoDup_nodup.
+  - intros Hx. apply nodup_In, in_map_iff in Hx as ([y k] & Hy & Hin). cbn in Hy. subst. eauto.
+  - intros [k Hin]. apply nodup_In, in_map_iff. exists (x, k). auto.
+Qed.
+
+Lemma in_rels_of_kind l k x : In x (rels_of_kind l k) <-> In (x, k) l.
+Proof.
+  unfold rels_of_kind. rewrite in_map_iff. split.
+  - intros ([y k'] & Hy & Hin). cbn in Hy. subst. apply filter_In in Hin as [Hin Hk]. cbn in Hk.
+    apply kind_eqb_eq in Hk. subst. exact Hin.
+  - intros Hin. exists (x, k). split; [reflexivity|]. apply filter_In. split; [exact Hin | apply kind_eqb_refl].
+Qed.
+
+(* unregister / owner termination: CleanupTarget takes every relation in one step; exits go to
+   exactly the link subscribers, downs to exactly the monitor subscribers, and no relation is left
+   (so no second notification for the same subscription can follow) *)
+Lemma cleanup_snapshot i s reason die s' p' :
+  step_pc i s (X_cleanup reason die) = Some (s', p') ->
+  fans s' = fans s ++ [(i, (IExit reason, rels_of_kind (rels s) KLink)); (i, (IDown reason, rels_of_kind (rels s) KMon))] /\
+  rels s' = [] /\ p' = X_send reason (rels_of_kind (rels s) KLink) (rels_of_kind (rels s) KMon) die.
+Proof.
+  cbn [step_pc]. intros H; inversion H; subst. cbn. rewrite <- app_assoc. auto.
+Qed.
+
+(* ------------------------------------------------------------------------------------------ *)
+(* 4. The last-N buffer                                                                        *)
+
+Lemma skipn_tl {A} k (l : list A) : tl (skipn k l) = skipn (S k) l.
+Proof. revert l; induction k as [|k IH]; intros [|x l]; cbn; auto. apply IH. Qed.
+
+Lemma buf_push_lastn cap all m : buf_push cap (lastn cap all) m = lastn cap (all ++ [m]).
+Proof.
+  unfold buf_push, lastn. rewrite app_length. cbn [length].
+  destruct (Nat.eqb_spec cap 0) as [->|Hc].
+  - rewrite !Nat.sub_0_r, !skipn_all2; auto. rewrite app_length; cbn; lia.
+  - rewrite skipn_length. destruct (Nat.ltb_spec cap (length all - (length all - cap) + 1)) as [Hlt|Hge].
+    + rewrite skipn_tl. rewrite skipn_app.
+      replace (S (length all - cap)) with (length all + 1 - cap) by lia.
+      replace (length all + 1 - cap - length all) with 0 by lia. reflexivity.
+    + replace (length all - cap) with 0 by lia. replace (length all + 1 - cap) with 0 by lia. reflexivity.
+Qed.
+
+Definition BufInv (s : shared) : Prop := Forall (fun x => r_buf x = lastn (r_cap x) (r_all x)) (recs s).
+
+Lemma Forall_upd_nth {A} (P : A -> Prop) l r f : Forall P l -> (forall x, P x -> P (f x)) -> Forall P (upd_nth l r f).
+Proof.
+  intros Hl Hf. revert r. induction Hl as [|x l Hx Hl IH]; intros [|r]; cbn; try constructor; auto.
+Qed.
+
+Lemma BufInv_upd s r f : BufInv s -> (forall x, r_buf x = lastn (r_cap x) (r_all x) -> r_buf (f x) = lastn (r_cap (f x)) (r_all (f x))) ->
+  BufInv (upd_rec s r f).
+Proof. intros H Hf. unfold BufInv, upd_rec. cbn. apply Forall_upd_nth; assumption. Qed.
+
+Lemma BufInv_cnt s r d : BufInv s -> BufInv (upd_rec s r (rec_cnt d)).
+Proof. intros H. apply BufInv_upd; [exact H | intros x Hx; exact Hx]. Qed.
+Lemma BufInv_lock s r b : BufInv s -> BufInv (upd_rec s r (rec_lock b)).
+Proof. intros H. apply BufInv_upd; [exact H | intros x Hx; exact Hx]. Qed.
+Lemma BufInv_push s r m : BufInv s -> BufInv (upd_rec s r (rec_push m)).
+Proof. intros H. apply BufInv_upd; [exact H | intros x Hx; cbn; rewrite Hx; apply buf_push_lastn]. Qed.
+
+Ltac buf_same := match goal with HB : BufInv _ |- _ => exact HB end.
+
+Lemma sub_copy_BufInv s r s' p : sub_copy s r = (s', p) -> BufInv s -> BufInv s'.
+Proof. unfold sub_copy. destruct (get_rec s r); intros H HB; inversion H; subst; [apply BufInv_lock|]; buf_same. Qed.
+
+Lemma step_pc_BufInv i s p s' p' : step_pc i s p = Some (s', p') -> BufInv s -> BufInv s'.
+Proof.
+  destruct p; cbn [step_pc]; intros H HB; try discriminate.
+  - destruct (locked s r); [discriminate|]. inversion H; subst. apply (BufInv_push s r (i, seq) HB).
+  - destruct to; inversion H; subst; buf_same.
+  - destruct (table s); inversion H; subst; buf_same.
+  - destruct (locked s r); [discriminate|]. destruct (has_rel (rels s) i k); inversion H; subst; [buf_same|].
+    apply (BufInv_lock (set_rels s (rels s ++ [(i, k)])) r true HB).
+  - destruct (table s); [inversion H as [H1]; eapply sub_copy_BufInv; eauto | inversion H; subst; buf_same].
+  - destruct (has_rel (rels s) i k); [|inversion H as [H1]; eapply sub_copy_BufInv; eauto].
+    inversion H; subst. apply (BufInv_lock (set_rels s (del_rel (rels s) i k)) r false HB).
+  - destruct (get_rec s r) as [x|]; [|inversion H; subst; buf_same].
+    destruct (r_notify x && (r_cnt x + 1 <=? 1)%Z); inversion H; subst; apply (BufInv_cnt s r 1 HB).
+  - inversion H; subst; buf_same.
+  - destruct (table s); inversion H; subst; buf_same.
+  - destruct (has_rel (rels s) i k); inversion H; subst; buf_same.
+  - destruct (get_rec s r) as [x|]; [|inversion H; subst; buf_same].
+    destruct (r_notify x && (r_cnt x - 1 <=? 0)%Z); inversion H; subst; apply (BufInv_cnt s r (-1) HB).
+  - inversion H; subst; buf_same.
+  - inversion H; subst; buf_same.
+  - inversion H; subst; buf_same.
+  - destruct exits; [destruct downs; [destruct die|]|]; inversion H; subst; buf_same.
+  - inversion H; subst; buf_same.
+  - destruct ks; [inversion H; subst; buf_same|]. destruct (table s); inversion H; subst; buf_same.
+  - destruct (get_rec s r) as [x|]; [|inversion H; subst; buf_same].
+    destruct (r_notify x && (r_cnt x - 1 <=? 0)%Z); inversion H; subst; apply (BufInv_cnt s r (-1) HB).
+  - inversion H; subst; buf_same.
+  - destruct (table s) as [r|]; [|inversion H; subst; buf_same].
+    destruct (get_rec s r) as [x|]; [|inversion H; subst; buf_same].
+    destruct (Nat.eqb (r_owner x) i); inversion H; subst; buf_same.
+Qed.
+
+Lemma start_op_BufInv i s o s' p' : start_op i s o = (s', p') -> BufInv s -> BufInv s'.
+Proof.
+  destruct o; cbn [start_op]; intros H HB.
+  - destruct (table s); inversion H; subst; [buf_same|].
+    unfold BufInv. cbn. apply Forall_app. split; [exact HB|]. constructor; [reflexivity|constructor].
+  - destruct (table s) as [r|]; [|inversion H; subst; buf_same].
+    destruct (get_rec s r) as [x|]; [|inversion H; subst; buf_same].
+    destruct (Nat.eqb (r_token x) tok); inversion H; subst; buf_same.
+  - destruct (has_rel (rels s) i k); inversion H; subst; buf_same.
+  - destruct (has_rel (rels s) i k); inversion H; subst; buf_same.
+  - destruct (table s) as [r|]; [|inversion H; subst; buf_same].
+    destruct (get_rec s r) as [x|]; [|inversion H; subst; buf_same].
+    destruct (Nat.eqb (r_owner x) i); inversion H; subst; buf_same.
+  - inversion H; subst; buf_same.
+Qed.
+
+Lemma lastn_length {A} n (l : list A) : length (lastn n l) = Nat.min n (length l).
+Proof. unfold lastn. rewrite skipn_length. lia. Qed.
+
+(* C18, last N.  For every schedule: the buffer of every event record is the last min(N,k) of the k
+   publications accepted under that record, oldest first ... *)
+Theorem lastN_buffer progs sched :
+  let c := run sched (init_cfg progs) in
+  forall r x, get_rec (sh c) r = Some x ->
+    r_buf x = lastn (r_cap x) (r_all x) /\ length (r_buf x) = Nat.min (r_cap x) (length (r_all x)).
+Proof.
+  intros c r x Hx. subst c.
+  assert (HB : BufInv (sh (run sched (init_cfg progs)))).
+  { apply (run_invariant (fun c => BufInv (sh c))).
+    - intros c0 i c'. apply shared_invariant; [intros; eapply start_op_BufInv; eauto | intros; eapply step_pc_BufInv; eauto].
+    - constructor. }
+  unfold BufInv in HB. rewrite Forall_forall in HB. specialize (HB x (nth_error_In _ _ Hx)).
+  split; [exact HB | rewrite HB; apply lastn_length].
+Qed.
+
+(* ... and a subscriber is handed exactly that buffer: the copy is made in the step that completes the
+   lock-protected [relation insert; re-check; copy] section *)
+Lemma subscribe_returns_buffer s r x : get_rec s r = Some x ->
+  snd (sub_copy s r) = S_counter r (r_buf x).
+Proof. unfold sub_copy. intros ->. reflexivity. Qed.
+
+(* ------------------------------------------------------------------------------------------ *)
+(* 5. Tokens                                                                                   *)
+
+Ltac crunch H :=
+  repeat match type of H with
+         | context [match ?x with _ => _ end] => destruct x eqn:?
+         end; try discriminate.
+
+Lemma map_token_upd l r f : (forall x, r_token (f x) = r_token x) -> map r_token (upd_nth l r f) = map r_token l.
+Proof. intros Hf. revert r; induction l as [|x l IH]; intros [|r]; cbn; auto; f_equal; auto. Qed.
+
+Lemma step_pc_tokens i s p s' p' : step_pc i s p = Some (s', p') ->
+  ntok s' = ntok s /\ map r_token (recs s') = map r_token (recs s).
+Proof.
+  destruct p; cbn [step_pc]; unfold sub_copy, finish; intros H; crunch H; inversion H; subst; cbn;
+    rewrite ?map_token_upd by (intros; reflexivity); auto.
+Qed.
+
+Definition TokInv (s : shared) : Prop :=
+  Forall (fun t => 1 <= t <= ntok s) (map r_token (recs s)) /\ NoDup (map r_token (recs s)).
+
+Lemma start_op_TokInv i s o s' p' : start_op i s o = (s', p') -> TokInv s -> TokInv s'.
+Proof.
+  intros H [H1 H2]. destruct o; cbn [start_op] in H; unfold finish in H; crunch H; inversion H; subst; cbn; try (split; assumption).
+  - split; cbn; [|exact H2]. eapply Forall_impl; [|exact H1]. cbn. intros; lia.
+  - unfold TokInv. cbn. rewrite map_app. cbn. split.
+    + apply Forall_app. split; [eapply Forall_impl; [|exact H1]; cbn; intros; lia | constructor; [lia|constructor]].
+    + apply NoDup_snoc; [exact H2|]. intros Hin. rewrite Forall_forall in H1. specialize (H1 _ Hin). lia.
+Qed.
+
+(* C18, token.  For every schedule: tokens of event records are never the empty reference (0) and
+   no two records (current or earlier registrations) share a token ... *)
+Theorem tokens_fresh progs sched :
+  let s := sh (run sched (init_cfg progs)) in
+  NoDup (map r_token (recs s)) /\ forall x, In x (recs s) -> 1 <= r_token x.
+Proof.
+  intros s. subst s.
+  assert (HT : TokInv (sh (run sched (init_cfg progs)))).
+  { apply (run_invariant (fun c => TokInv (sh c))).
+    - intros c0 i c'. apply shared_invariant; [intros; eapply start_op_TokInv; eauto|].
+      intros j s p s' p' Hs [H1 H2]. destruct (step_pc_tokens _ _ _ _ _ Hs) as [E1 E2]. unfold TokInv. rewrite E1, E2. auto.
+    - split; constructor. }
+  destruct HT as [H1 H2]. split; [exact H2|]. intros x Hx. rewrite Forall_forall in H1.
+  specialize (H1 (r_token x) (in_map r_token _ _ Hx)). lia.
+Qed.
+
+(* ... a SendEvent whose token differs from the token of the registered record (or with no record)
+   changes nothing but its own return value, an error: no buffer push, no snapshot, no delivery ... *)
+Theorem publish_wrong_token c i tok seq rest :
+  nth_error (thr c) i = Some (mk_thr Idle (OPublish tok seq :: rest)) ->
+  (forall r x, table (sh c) = Some r -> get_rec (sh c) r = Some x -> r_token x <> tok) ->
+  exists e, step c i = Some (mk_cfg (add_res (sh c) i (RErr e)) (set_thr (thr c) i (mk_thr Idle rest))).
+Proof.
+  intros Ht Hneq. unfold step. rewrite Ht. cbn [t_pc t_todo start_op].
+  destruct (table (sh c)) as [r|] eqn:Htab; [|eexists; reflexivity].
+  destruct (get_rec (sh c) r) as [x|] eqn:Hr; [|eexists; reflexivity].
+  destruct (Nat.eqb_spec (r_token x) tok) as [E|_]; [exfalso; eapply Hneq; eauto | eexists; reflexivity].
+Qed.
+
+(* ... and the publishing section is entered only with the token of the record found in the table *)
+Lemma publish_accepted i s tok seq s' r seq' :
+  start_op i s (OPublish tok seq) = (s', P_crit r seq') ->
+  s' = s /\ seq' = seq /\ table s = Some r /\ exists x, get_rec s r = Some x /\ r_token x = tok.
+Proof.
+  cbn [start_op]. unfold finish. intros H. crunch H; inversion H; subst.
+  repeat split; auto. eexists; split; [eassumption|]. apply Nat.eqb_eq. assumption.
+Qed.
+
+(* ------------------------------------------------------------------------------------------ *)
+(* 6. Sequential histories: the consumer counter is the number of subscriptions, start / stop    *)
+
+Definition SeqInv (s : sst) : Prop :=
+  NoDup (q_subs s) /\
+  match q_reg s with
+  | Some g => g_cnt g = Z.of_nat (length (q_subs s))
+  | None => q_subs s = []
+  end.
+
+Lemma deliver_frame s x it : q_reg (deliver s x it) = q_reg s /\ q_subs (deliver s x it) = q_subs s /\ q_dead (deliver s x it) = q_dead s.
+Proof. unfold deliver. destruct (mem x (q_dead s)); cbn; auto. Qed.
+Lemma deliver_all_frame l s it : q_reg (deliver_all s l it) = q_reg s /\ q_subs (deliver_all s l it) = q_subs s /\ q_dead (deliver_all s l it) = q_dead s.
+Proof.
+  unfold deliver_all. revert s; induction l as [|x l IH]; intros s; cbn; auto.
+  destruct (IH (deliver s x it)) as (A & B & C). destruct (deliver_frame s x it) as (A' & B' & C'). rewrite A, B, C. auto.
+Qed.
+
+Lemma SeqInv_frame s s' : q_reg s' = q_reg s -> q_subs s' = q_subs s -> SeqInv s -> SeqInv s'.
+Proof. unfold SeqInv. intros -> ->. auto. Qed.
+
+Lemma filter_all_id {A} (f : A -> bool) l : (forall x, In x l -> f x = true) -> filter f l = l.
+Proof.
+  induction l as [|x l IH]; intros H; cbn; [reflexivity|]. rewrite (H x (or_introl eq_refl)). f_equal.
+  apply IH. intros y Hy. apply H. right. exact Hy.
+Qed.
+
+Lemma del_rel_length l x k : NoDup l -> In (x, k) l -> S (length (del_rel l x k)) = length l.
+Proof.
+  unfold del_rel. induction l as [|e l IH]; intros Hnd Hin; [destruct Hin|]. inversion Hnd; subst. cbn.
+  destruct (rel_eqb (x, k) e) eqn:E; cbn.
+  - apply rel_eqb_eq in E. subst e. f_equal.
+    assert (Hf : filter (fun e => negb (rel_eqb (x, k) e)) l = l); [|rewrite Hf; reflexivity].
+    apply filter_all_id. intros e He. destruct (rel_eqb (x, k) e) eqn:E2; [|reflexivity].
+    apply rel_eqb_eq in E2. subst. contradiction.
+  - f_equal. apply IH; [assumption|]. destruct Hin as [->|Hin]; [|exact Hin].
+    unfold rel_eqb in E. cbn in E. rewrite Nat.eqb_refl, kind_eqb_refl in E. discriminate.
+Qed.
+
+Lemma seq_dec_inv s : NoDup (q_subs s) ->
+  (match q_reg s with Some g => g_cnt g = Z.of_nat (S (length (q_subs s))) | None => q_subs s = [] end) ->
+  SeqInv (seq_dec s).
+Proof.
+  intros Hnd H. unfold seq_dec. destruct (q_reg s) as [g|] eqn:Hg.
+  - assert (SeqInv (q_set_reg s (Some (g_add (-1) g)))) as HI by (split; cbn; [exact Hnd | lia]).
+    destruct (g_notify g && (g_cnt g - 1 <=? 0)%Z); [|exact HI].
+    destruct (deliver_frame (q_set_reg s (Some (g_add (-1) g))) (g_owner g) IStop) as (A & B & _).
+    eapply SeqInv_frame; eauto.
+  - split; [exact Hnd|]. rewrite Hg. exact H.
+Qed.
+
+Lemma seq_terminate_event_inv s reason : SeqInv (seq_terminate_event s reason).
+Proof.
+  unfold seq_terminate_event.
+  match goal with |- SeqInv (deliver_all (deliver_all ?s0 ?l1 ?i1) ?l2 ?i2) =>
+    destruct (deliver_all_frame l2 (deliver_all s0 l1 i1) i2) as (A & B & _);
+    destruct (deliver_all_frame l1 s0 i1) as (A' & B' & _) end.
+  eapply SeqInv_frame; [rewrite A, A'; reflexivity | rewrite B, B'; reflexivity|]. split; cbn; [constructor|reflexivity].
+Qed.
+
+Lemma filter_partition_length {A} (f : A -> bool) l : length (filter f l) + length (filter (fun x => negb (f x)) l) = length l.
+Proof. induction l as [|x l IH]; cbn; [reflexivity|]. destruct (f x); cbn; lia. Qed.
+
+(* the decrements of a terminating consumer, one per relation it held *)
+Lemma gone_loop_inv n s : NoDup (q_subs s) ->
+  (match q_reg s with Some g => g_cnt g = Z.of_nat (n + length (q_subs s)) | None => q_subs s = [] end) ->
+  forall ks : list kind, length ks = n -> SeqInv (fold_left (fun s _ => seq_dec s) ks s).
+Proof.
+  revert s. induction n as [|n IH]; intros s Hnd H ks Hl.
+  - destruct ks; [|discriminate]. cbn. split; [exact Hnd|]. destruct (q_reg s); cbn in H; auto.
+  - destruct ks as [|k ks]; [discriminate|]. cbn [fold_left]. injection Hl as Hl.
+    assert (Hd : q_subs (seq_dec s) = q_subs s).
+    { unfold seq_dec. destruct (q_reg s) as [g|]; [|reflexivity].
+      destruct (g_notify g && (g_cnt g - 1 <=? 0)%Z); [|reflexivity].
+      destruct (deliver_frame (q_set_reg s (Some (g_add (-1) g))) (g_owner g) IStop) as (_ & B & _). exact B. }
+    apply IH; [rewrite Hd; exact Hnd | | exact Hl]. rewrite Hd.
+    unfold seq_dec. destruct (q_reg s) as [g|] eqn:Hg; [|rewrite Hg; exact H].
+    assert (E : q_reg (if g_notify g && (g_cnt g - 1 <=? 0)%Z then deliver (q_set_reg s (Some (g_add (-1) g))) (g_owner g) IStop
+                       else q_set_reg s (Some (g_add (-1) g))) = Some (g_add (-1) g)).
+    { destruct (g_notify g && (g_cnt g - 1 <=? 0)%Z); [|reflexivity].
+      destruct (deliver_frame (q_set_reg s (Some (g_add (-1) g))) (g_owner g) IStop) as (A & _). exact A. }
+    rewrite E. cbn. lia.
+Qed.
+
+Lemma seq_op_inv s io : SeqInv s -> SeqInv (seq_op s io).
+Proof.
+  intros [Hnd Hc]. destruct io as [i o]. unfold seq_op. destruct (mem i (q_dead s)); [split; assumption|].
+  destruct o.
+  - destruct (q_reg s) eqn:Hg; split; cbn; auto; try (rewrite Hg; exact Hc). rewrite Hc. reflexivity.
+  - destruct (q_reg s) as [g|] eqn:Hg; [|split; cbn; [exact Hnd | rewrite Hg; exact Hc]].
+    destruct (Nat.eqb (g_token g) tok); [|split; cbn; [exact Hnd | rewrite Hg; exact Hc]].
+    match goal with |- SeqInv (q_ret (deliver_all ?s0 ?l ?it) _ _) => destruct (deliver_all_frame l s0 it) as (A & B & _) end.
+    split; cbn; rewrite ?A, ?B; cbn; auto.
+  - destruct (has_rel (q_subs s) i k) eqn:Hr; [split; cbn; auto|].
+    destruct (q_reg s) as [g|] eqn:Hg; [|split; cbn; [exact Hnd | rewrite Hg; exact Hc]].
+    assert (HI : SeqInv (q_set_reg (q_set_subs s (q_subs s ++ [(i, k)])) (Some (g_add 1 g)))).
+    { split; cbn; [apply NoDup_snoc; [exact Hnd | apply has_rel_false; exact Hr] | rewrite app_length; cbn; lia]. }
+    destruct (g_notify g && (g_cnt g + 1 <=? 1)%Z).
+    + match goal with |- SeqInv (q_ret (deliver ?s0 ?x ?it) _ _) => destruct (deliver_frame s0 x it) as (A & B & _) end.
+      destruct HI as [I1 I2]. split; cbn; rewrite ?A, ?B; auto.
+    + exact HI.
+  - destruct (has_rel (q_subs s) i k) eqn:Hr; [|split; cbn; auto].
+    destruct (q_reg s) as [g|] eqn:Hg; [|split; cbn; [exact Hnd | rewrite Hg; exact Hc]].
+    assert (HI : SeqInv (seq_dec (q_set_subs s (del_rel (q_subs s) i k)))).
+    { apply seq_dec_inv; cbn; [apply NoDup_filter; exact Hnd|]. rewrite Hg.
+      rewrite (del_rel_length _ _ _ Hnd (has_rel_true _ _ _ Hr)). exact Hc. }
+    exact HI.
+  - destruct (q_reg s) as [g|] eqn:Hg; [|split; cbn; [exact Hnd | rewrite Hg; exact Hc]].
+    destruct (Nat.eqb (g_owner g) i); [|split; cbn; [exact Hnd | rewrite Hg; exact Hc]].
+    destruct (seq_terminate_event_inv s 0) as [T1 T2]. split; cbn; assumption.
+  - set (s1 := mk_sst (q_reg s) (del_actor (q_subs s) i) (q_ntok s) (i :: q_dead s) (q_out s) (q_res s)).
+    assert (HI : SeqInv (fold_left (fun s _ => seq_dec s) (rels_of_actor (q_subs s) i) s1)).
+    { apply (gone_loop_inv (length (rels_of_actor (q_subs s) i))); cbn; [apply NoDup_filter; exact Hnd | | reflexivity].
+      destruct (q_reg s) as [g|]; [|rewrite Hc; reflexivity]. rewrite Hc. f_equal.
+      unfold rels_of_actor, del_actor. rewrite map_length. symmetry. apply filter_partition_length. }
+    destruct (q_reg (fold_left (fun s _ => seq_dec s) (rels_of_actor (q_subs s) i) s1)) as [g|]; [|exact HI].
+    destruct (Nat.eqb (g_owner g) i); [apply seq_terminate_event_inv | exact HI].
+Qed.
+
+Theorem SeqInv_hist h : SeqInv (seq_hist h).
+Proof.
+  unfold seq_hist. assert (H0 : SeqInv sst0) by (split; cbn; [constructor|reflexivity]).
+  revert H0. generalize sst0. induction h as [|io h IH]; intros s Hs; cbn; [exact Hs|]. apply IH. apply seq_op_inv. exact Hs.
+Qed.
+
+(* C18, start / stop (sequential histories).  After any history the counter equals the number of
+   subscriptions; therefore a subscribe tells the producer exactly when it is the first subscription
+   and an unsubscribe exactly when it was the last one. *)
+Theorem start_notify h i k g :
+  let s := seq_hist h in
+  mem i (q_dead s) = false -> has_rel (q_subs s) i k = false -> q_reg s = Some g ->
+  q_out (seq_op s (i, OSub k)) =
+  q_out s ++ (if g_notify g && Nat.eqb (length (q_subs s)) 0 && negb (mem (g_owner g) (q_dead s)) then [(g_owner g, IStart)] else []).
+Proof.
+  intros s Hd Hr Hg. destruct (SeqInv_hist h) as [_ Hc]. fold s in Hc. rewrite Hg in Hc.
+  unfold seq_op. rewrite Hd, Hr, Hg. cbn [q_out q_ret].
+  replace (g_cnt g + 1 <=? 1)%Z with (Nat.eqb (length (q_subs s)) 0)
+    by (destruct (Nat.eqb_spec (length (q_subs s)) 0); lia).
+  destruct (g_notify g && Nat.eqb (length (q_subs s)) 0); cbn; [|rewrite app_nil_r; reflexivity].
+  unfold deliver. cbn -[mem]. destruct (mem (g_owner g) (q_dead s)); cbn; rewrite ?app_nil_r; reflexivity.
+Qed.
+
+Theorem stop_notify h i k g :
+  let s := seq_hist h in
+  mem i (q_dead s) = false -> has_rel (q_subs s) i k = true -> q_reg s = Some g ->
+  q_out (seq_op s (i, OUnsub k)) =
+  q_out s ++ (if g_notify g && Nat.eqb (length (q_subs s)) 1 && negb (mem (g_owner g) (q_dead s)) then [(g_owner g, IStop)] else []).
+Proof.
+  intros s Hd Hr Hg. destruct (SeqInv_hist h) as [_ Hc]. fold s in Hc. rewrite Hg in Hc.
+  unfold seq_op. rewrite Hd, Hr, Hg. cbn [q_out q_ret]. unfold seq_dec. cbn [q_reg q_set_subs].
+  rewrite Hg.
+  assert (Hpos : 1 <= length (q_subs s)).
+  { apply has_rel_true in Hr. destruct (q_subs s); [destruct Hr | cbn; lia]. }
+  replace (g_cnt g - 1 <=? 0)%Z with (Nat.eqb (length (q_subs s)) 1)
+    by (destruct (Nat.eqb_spec (length (q_subs s)) 1); lia).
+  destruct (g_notify g && Nat.eqb (length (q_subs s)) 1); cbn; [|rewrite app_nil_r; reflexivity].
+  unfold deliver. cbn -[mem]. destruct (mem (g_owner g) (q_dead s)); cbn; rewrite ?app_nil_r; reflexivity.
 Qed.
